@@ -49,7 +49,7 @@ def strat_T(tier):
         'out': st.one_of(st.tuples(ax, ax).map(list), ax.map(lambda k: [k, k])),
         'Q': st.one_of(st.sampled_from([1.0, 2.0, 0.5, 1.37]), U.nice_float(0.4, 4).map(lambda v: round(v, 3))),
         'shift': _shift(), 'phys': _phys(), 'method': st.sampled_from(['mdft', 'czt']), 'fwd': st.booleans(),
-        'kind': U.field_kinds, 'seed': U.seeds,
+        'kind': U.field_kinds, 'seed': U.seeds, 'adtype': st.sampled_from(['complex128', 'complex128', 'float64']),
         'ab': st.tuples(U.nice_float(-2, 2), U.nice_float(-2, 2), U.nice_float(-2, 2), U.nice_float(-2, 2)).map(lambda t: [round(v, 3) for v in t]),
     })
 
@@ -63,7 +63,11 @@ def check_T(case, ctx):
     lam, efl = ph['wvl'], ph['efl']
     ny, nx = shape
     big = (ny + pad[0], nx + pad[1])
-    a = U.field(case['seed'], shape, case['kind'], 1).astype(complex)
+    a = U.field(case['seed'], shape, case['kind'], 1)
+    if case.get('adtype', 'complex128') == 'complex128':
+        a = a.astype(complex)
+    else:
+        a = np.ascontiguousarray(a.real).astype(case.get('adtype', 'complex128'))     # real-dtype input: linearity must hold across dtypes too
     b = U.field(case['seed'], shape, 'complex', 2)
     al = complex(case['ab'][0], case['ab'][1])
     be = complex(case['ab'][2], case['ab'][3])
@@ -80,7 +84,7 @@ def check_T(case, ctx):
     parity_change = any((s % 2) != (g % 2) for s, g in zip(shape, big))
     aspect_change = pad[0] * nx != pad[1] * ny
     ctx.nt(ny != nx or parity_change or out[0] != out[1] or sh[0] != sh[1] or shifted)
-    ctx.label(method, 'fwd' if fwd else 'inv', 'square' if ny == nx else 'nonsquare', 'embed-parity-change' if parity_change else 'embed-same-parity',
+    ctx.label(method, 'fwd' if fwd else 'inv', 'a:' + case.get('adtype', 'complex128'), 'square' if ny == nx else 'nonsquare', 'embed-parity-change' if parity_change else 'embed-same-parity',
               'embed-aspect-change' if aspect_change else 'embed-same-aspect', 'shifted' if shifted else 'unshifted',
               'out-square' if out[0] == out[1] else 'out-nonsquare')
 
@@ -91,6 +95,8 @@ def check_T(case, ctx):
     norm = dx_in * dx_out / (lam * efl)          # 1/sqrt(NyQy NxQx)
     scale = max(float(np.abs(a).sum() + np.abs(b).sum()) * norm * (1 + abs(al) + abs(be)), 1e-300)
     tag = ('focus' if fwd else 'unfocus') + '_fixed_sampling:' + method
+    if case.get('adtype', 'complex128') != 'complex128':
+        U.check_close(Ta, T(a.astype(complex)), 0, tag + ':real-vs-complex-dtype', 'T(real-dtype a) != T(a.astype(complex)) %s->%s' % (shape, out), atol=TOL * scale)
     # linearity
     Tb = T(b)
     Tl = T(al * a + be * b)
